@@ -59,6 +59,7 @@ CONTRACTS = [
     Contract(F + "::run_experiment_group",
              params={"name": "str", "run": "str", "experiments": "Seq[PyObject]", "chain_experiments": "bool", "deps": "Opt[List[str]#depl]"},
              props=["C19", "C15"],
+             one_shot=["experiments"],      # documented as Iterable[ExperimentInstance]: may be a generator
              callables={"run_experiment": "ext::cond.run_experiment", "combine": "ext::cond.combine"},
              locals={"task_deps": "List[str]#depl", "relative_experiment_identifiers": "List[str]#relids",
                      "seen_experiment_names": "Set[str]#seen", "experiment_deps": "List[str]#depl", "prev_experiment_identifier": "Opt[str]"},
